@@ -93,6 +93,33 @@ fn gen_c14(_tier: &str, _rng: &mut Rng, w: &mut dyn Write) {
         writeln!(w, "pair_index {} {} 0\npair_index {} {} 1\npair_index {} {} 2", a, b, a, b, a, b)
             .unwrap();
     }
+    // histories: two texts that differ in exactly one character, parsed one right after the other on one thread, for
+    // every ordered pair of rank letters and of suit letters at each of the four positions (a parser that remembers
+    // its last input under a lossy key confuses exactly such neighbours)
+    let ranks = b"AKQJT98765432";
+    let suits = b"shdc";
+    for pos in 0..4usize {
+        let alpha: &[u8] = if pos % 2 == 0 { ranks } else { suits };
+        for (i, x) in alpha.iter().enumerate() {
+            for (j, y) in alpha.iter().enumerate() {
+                if i == j {
+                    continue;
+                }
+                // a base text whose other card differs in rank from both substituted letters where possible
+                let other_rank = ranks[(i + j + 5 + pos) % 13];
+                let mut t: Vec<u8> = vec![ranks[(i + 3) % 13], suits[(j + pos) % 4], other_rank, suits[(i + 1) % 4]];
+                if pos >= 2 {
+                    t.swap(0, 2);
+                    t.swap(1, 3);
+                }
+                let mut a = t.clone();
+                a[pos] = *x;
+                let mut b = t.clone();
+                b[pos] = *y;
+                writeln!(w, "parse_pair {}\nparse_pair {}", hex(&a), hex(&b)).unwrap();
+            }
+        }
+    }
     for s in [
         "", "As", "AsK", "AsKcQ", "As Kc", "AsKj", "asks", "AsAs", "KcKc",
     ] {
